@@ -145,6 +145,7 @@ type World struct {
 	AdoptPanic    string // a panic inside AdoptSession (recovered), with stack
 	PreAdoptFatal error  // outcome of the invocation with PreAdoptLimits
 	PreAdoptRan   bool
+	AdoptHung     bool   // AdoptSession did not return (hang oracle)
 	storeDir      string // scratch directory of a filesystem-flavoured store
 	// PlainRecords: the stored values are bare packets (session made like
 	// VolatileSession does, without the sequence number and checksum trailer)
@@ -320,7 +321,7 @@ func New(t TB, o Options) *World {
 				low := cfg
 				low.AtLeastOnceMax, low.ExactlyOnceMax = o.PreAdoptLimits, o.PreAdoptLimits
 				var cl *mqtt.Client
-				cl, preWarn, w.PreAdoptFatal = mqtt.AdoptSession(w.Store, &low)
+				cl, preWarn, w.PreAdoptFatal = w.adoptWatched(&low)
 				w.PreAdoptRan = true
 				if cl != nil {
 					cl.Close() // (the limits sufficed after all)
@@ -334,7 +335,9 @@ func New(t TB, o Options) *World {
 					w.Client, w.Fatal = nil, fmt.Errorf("AdoptSession panicked: %v", p)
 				}
 			}()
-			w.Client, w.Warn, w.Fatal = mqtt.AdoptSession(w.Store, &cfg)
+			if !w.AdoptHung {
+				w.Client, w.Warn, w.Fatal = w.adoptWatched(&cfg)
+			}
 		}()
 		w.Warn = append(preWarn[:len(preWarn):len(preWarn)], w.Warn...)
 		w.Store.ClearFaults()
@@ -351,6 +354,52 @@ func New(t TB, o Options) *World {
 	}
 	w.App = newApp(w)
 	return w
+}
+
+// adoptWatched runs AdoptSession under the hang oracle: it must return; with
+// no Persistence operation for the quiet period it never will (AdoptHung).
+func (w *World) adoptWatched(cfg *mqtt.Config) (cl *mqtt.Client, warn []error, fatal error) {
+	type result struct {
+		cl    *mqtt.Client
+		warn  []error
+		fatal error
+		panic interface{}
+		stack []byte
+	}
+	w.mu.Lock()
+	w.lastEvent = time.Now()
+	w.mu.Unlock()
+	done := make(chan result, 1)
+	go func() {
+		var r result
+		defer func() {
+			if p := recover(); p != nil {
+				r.panic, r.stack = p, debug.Stack()
+			}
+			done <- r
+		}()
+		r.cl, r.warn, r.fatal = mqtt.AdoptSession(w.Store, cfg)
+	}()
+	quiet := 4 * time.Second
+	for {
+		select {
+		case r := <-done:
+			if r.panic != nil {
+				w.AdoptPanic = fmt.Sprintf("%v\n%s", r.panic, r.stack)
+				return nil, nil, fmt.Errorf("AdoptSession panicked: %v", r.panic)
+			}
+			return r.cl, r.warn, r.fatal
+		case <-time.After(100 * time.Millisecond):
+			w.mu.Lock()
+			idle := time.Since(w.lastEvent)
+			w.mu.Unlock()
+			if idle > quiet {
+				w.AdoptHung = true
+				w.AdoptHungLimits = [2]int{cfg.AtLeastOnceMax, cfg.ExactlyOnceMax}
+				return nil, nil, errors.New("AdoptSession did not return")
+			}
+		}
+	}
 }
 
 // ---- waiting ----
